@@ -515,7 +515,7 @@ func R21() Rule {
 // suffixConst finds a trailing string constant of a path expression such as
 // filepath.Join(x + ".table.proto") or x + ".table.proto".
 func suffixConst(v ssa.Value) (string, bool) {
-	for i := 0; i < 6; i++ {
+	for i := 0; i < 10; i++ {
 		v = core.Resolve(v)
 		switch x := v.(type) {
 		case *ssa.BinOp:
@@ -547,6 +547,19 @@ func suffixConst(v ssa.Value) (string, bool) {
 							continue
 						}
 					}
+				}
+			}
+			// a path helper of the repository: continue with what it returns
+			if callee := x.Call.StaticCallee(); callee != nil && callee.Blocks != nil {
+				var rets []*ssa.Return
+				for _, b := range callee.Blocks {
+					if r, ok := b.Instrs[len(b.Instrs)-1].(*ssa.Return); ok && len(r.Results) == 1 {
+						rets = append(rets, r)
+					}
+				}
+				if len(rets) == 1 {
+					v = rets[0].Results[0]
+					continue
 				}
 			}
 			return "", false
